@@ -414,15 +414,21 @@ def indexed_child_accesses(f):
     for loop in f.walk():
         if loop.get('k') != 'For':
             continue
-        m = _re.match(r'(\w+) < (.+)->(\w+)Count\(\)$', render(role(loop, 'cond')) or '')
-        if not m:
-            continue
-        ivar, owner, kind = m.group(1), m.group(2), m.group(3)
+        cond_t = render(role(loop, 'cond')) or ''
+        m = _re.match(r'(\w+) < (.+)->(\w+)Count\(\)$', cond_t)
+        if m:
+            ivar, owner, kind = m.group(1), m.group(2), m.group(3)
+        else:
+            # the object's own children: `i < unitCount()` / `i < pFunc()->mUnitDefinitions.size()`
+            m0 = _re.match(r'(\w+) < (\w+)Count\(\)$', cond_t) or _re.match(r'(\w+) < (?:pFunc\(\)->)?m(\w+?)(?:Definition)?s\.size\(\)$', cond_t)
+            if not m0:
+                continue
+            ivar, owner, kind = m0.group(1), None, m0.group(2)[0].lower() + m0.group(2)[1:]
         body = role(loop, 'body')
         if body is None:
             continue
         for c in walk(body):
-            if c.get('k') == 'Call' and c.get('mc') and not c.get('opc') and render(receiver(c)) == owner and c.get('fn', '').lower().startswith(kind.lower()) and c.get('fn') != kind + 'Count':
+            if c.get('k') == 'Call' and c.get('mc') and not c.get('opc') and ((owner is not None and render(receiver(c)) == owner) or (owner is None and is_this_like(receiver(c)))) and c.get('fn', '').lower().startswith(kind.lower()) and c.get('fn') != kind + 'Count':
                 args = c['c'][1:]
                 if not args:
                     continue
